@@ -25,7 +25,9 @@ VARIABLES tol,       \* tolerance still active (early_data_ok)
           dead       \* the connection was aborted with a fatal alert
 vars == <<tol, skipped, dead>>
 
-Init == tol = TRUE /\ skipped = 0 /\ dead = FALSE
+\* tol = TRUE: the ClientHello offered early_data (with a PSK) and the server declined it; tol = FALSE: nothing was
+\* offered (a PSK alone is no offer) - there is nothing to skip then
+Init == tol \in BOOLEAN /\ skipped = 0 /\ dead = FALSE
 
 Garbage(n) == /\ ~dead
               /\ IF tol /\ skipped + n < Max
